@@ -29,7 +29,9 @@ PROPS = {
                       "_reuse_previous_segment_metadata) each against one step of the same specification for an object "
                       "list of any length and any position in it (no shape enumeration); the loop over the listed objects "
                       "for any number of listed objects, any number of carried-over objects and a reader memory of any "
-                      "size (inductive invariant: iteration k performs exactly the specification's step for entry k); "
+                      "size (inductive invariant: iteration k performs exactly the specification's step for entry k); the "
+                      "reader's per-path memory and the rejection of a data type change (_update_object_metadata) for "
+                      "any number of objects per segment; "
                       "FRAME obligations: "
                       "earlier segments' lists and objects are never modified; forbidden encodings raise ValueError; "
                       "runtime contract: explicit / incremental / metadata-less encodings of random files read alike.",
@@ -57,7 +59,9 @@ PROPS = {
                 note="Reader.inv (index = prefix sums of per-segment value counts) is the proved postcondition of "
                      "_build_index for any number of segments (harnesses build_index_all_segments, reader_inv_link); "
                      "that channel length n equals the last index entry is assumed (both are sums of "
-                     "_number_of_segment_values; update_object_metadata is shape-bounded); model library "
+                     "_number_of_segment_values; that _update_object_metadata adds exactly this count per object is proved "
+                     "for any number of objects by update_object_metadata_all_objects, the link of the two sums over "
+                     "all segments is on paper); model library "
                      "(searchsorted, slicing, cumsum) assumed" + _BOUNDED,
                 assumptions=["np.searchsorted on a nondecreasing array", "lemma cum monotone (proved by induction)"]),
     "C05": dict(level="other",
